@@ -390,14 +390,14 @@ def one_run(check, seed, i, cfg):
     return res
 
 
-def build_module():
+def build_module(extra_cflags=(), extra_ldflags=(), name="wl37"):
     shim = build.build_simgomp()
     d = os.path.dirname(shim)
-    so = build.build_ext("wl37", SRC, ".pyx", cflags=("-fopenmp",), split_link=True,
-                         ldflags=("-L" + d, "-lsimgomp", "-Wl,-rpath," + d, "-Wl,--wrap=PyGILState_Ensure", "-Wl,--wrap=PyGILState_Release",
+    so = build.build_ext(name, SRC, ".pyx", cflags=("-fopenmp",) + tuple(extra_cflags), split_link=True,
+                         ldflags=tuple(extra_ldflags) + ("-L" + d, "-lsimgomp", "-Wl,-rpath," + d, "-Wl,--wrap=PyGILState_Ensure", "-Wl,--wrap=PyGILState_Release",
                                   "-Wl,--wrap=PyEval_SaveThread", "-Wl,--wrap=PyEval_RestoreThread"),
                          extra_files={"boomlib.py": BOOMLIB})
-    return {"name": "wl37", "so": so, "shim": shim}
+    return {"name": name, "so": so, "shim": shim}
 
 
 def run_single(ms, case):
